@@ -1271,6 +1271,129 @@ def d22_format_by_final_extension(chk: Check) -> None:
                      .format(src((uses or texty)[0])[:50]))
 
 
+def d23_logger_reads_live_options(chk: Check) -> None:
+    """Every tool builds its ConsolePrinter first and validates its
+    arguments afterwards; validation *sets* `args.quiet = True` when the
+    result document goes to STDOUT, so that no log line can land in the
+    middle of it.  That only works because the printer tests the live
+    `self.args.quiet` each time.  A copy of the flags taken in `__init__`
+    is stale by the time anything is printed: WARNING lines appear in
+    front of the merged document."""
+    prog = chk.prog
+    chk.rule("C16-D23", "the printing methods of ConsolePrinter test "
+             "self.args.<flag> (the live options); __init__ takes no copy "
+             "of quiet / verbose / debug", floor=4)
+    ci = prog.class_by_name("ConsolePrinter")
+    init = ci.methods["__init__"]
+    args = init.params()[1]
+    copies = [a for a in walk_local(init.node)
+              if isinstance(a, (ast.Assign, ast.AnnAssign)) and
+              a.value is not None and any(
+                  (isinstance(x, ast.Attribute) and src(x.value) == args and
+                   x.attr in ("quiet", "verbose", "debug")) or
+                  (isinstance(x, ast.Call) and src(x.func) == "getattr" and
+                   x.args and src(x.args[0]) == args and len(x.args) > 1 and
+                   isinstance(x.args[1], ast.Constant) and
+                   x.args[1].value in ("quiet", "verbose", "debug"))
+                  for x in ast.walk(a.value))]
+    if copies:
+        chk.fail("C16-D23", init, copies[0], "ConsolePrinter.__init__: {}"
+                 .format(src(copies[0])[:50]),
+                 "the flag is copied when the printer is built; the tools "
+                 "set args.quiet later (document on STDOUT), which the "
+                 "printer then never sees")
+    else:
+        chk.ok("C16-D23", init, init.node, "ConsolePrinter.__init__",
+               "keeps the options object only")
+    for name in ("info", "verbose", "warning", "debug"):
+        m = ci.methods.get(name)
+        if m is None:
+            continue
+        tests = [t for t in walk_local(m.node) if isinstance(t, ast.If)]
+        live = any("self.args.quiet" in src(t.test) for t in tests)
+        text = "ConsolePrinter.{}: quiet test".format(name)
+        if live:
+            chk.ok("C16-D23", m, tests[0], text, "self.args.quiet")
+        else:
+            chk.fail("C16-D23", m, m.node, text,
+                     "the method does not consult the live quiet flag")
+
+
+def d24_strict_decoding(chk: Check) -> None:
+    """A file that is not valid UTF-8 is an unreadable input: every tool
+    refuses it with a non-zero status and leaves it alone (yaml-validate:
+    exit 2).  `open(..., errors='replace')` makes such a file "load" with
+    U+FFFD in place of the bad bytes: yaml-validate exits 0, yaml-get
+    prints an invented value, yaml-set rewrites the file with unrelated
+    values corrupted -- and the same bytes on STDIN are still refused."""
+    prog = chk.prog
+    chk.rule("C16-D24", "the loaders open their input with strict decoding "
+             "(no errors= other than 'strict' on open())", floor=2)
+    n = 0
+    for fi in prog.funcs_in("yamlpath/common/parsers.py"):
+        for c in walk_local(fi.node):
+            if not (isinstance(c, ast.Call) and src(c.func) == "open"):
+                continue
+            n += 1
+            kw = {k.arg: k.value for k in c.keywords if k.arg}
+            e = kw.get("errors")
+            text = "{}: {}".format(fi.short, src(c)[:60])
+            if e is None or (isinstance(e, ast.Constant) and
+                             e.value == "strict"):
+                chk.ok("C16-D24", fi, c, text, "strict")
+            else:
+                chk.fail("C16-D24", fi, c, text,
+                         "undecodable bytes are replaced instead of "
+                         "refused: a damaged or Latin-1 file is accepted "
+                         "as valid, and a rewrite stores the replacement "
+                         "characters")
+    if n < 2:
+        raise AnalysisError("open() calls of the loaders: {}".format(n))
+
+
+def d17b_merge_needs_a_left_side(chk: Check) -> None:
+    """merge_docs() folds the documents of one more source into the
+    left-hand list it is given and takes element [0] of that list in
+    condense mode.  yaml-merge's main() therefore calls it only once there
+    *is* a left-hand side: under the negation of the same emptiness test
+    that makes it load the first source.  This matters for the trailing
+    STDIN step too -- with no YAML_FILE at all (`cat x.yaml | yaml-merge`,
+    which validateargs allows) STDIN is the left-hand side, not something
+    to merge into an empty list."""
+    prog = chk.prog
+    chk.rule("C16-D17b", "every call of merge_docs in yaml-merge's main() "
+             "stands under the negation of the 'no left-hand documents "
+             "yet' test on the list it passes", floor=2)
+    fi = prog.func("yaml_merge.main")
+    n = 0
+    for c in walk_local(fi.node):
+        if not (isinstance(c, ast.Call) and src(c.func) == "merge_docs"):
+            continue
+        n += 1
+        lst = src(c.args[3]) if len(c.args) > 3 else None
+        text = "main: {}".format(src(c)[:60])
+        ok = lst is not None and any(
+            f.kind == "cond" and (
+                (not f.pol and src(f.expr).replace(" ", "") in (
+                    "len({})<1".format(lst), "len({})==0".format(lst),
+                    "not{}".format(lst))) or
+                (f.pol and src(f.expr).replace(" ", "") in (
+                    "len({})>0".format(lst), "len({})>=1".format(lst), lst)))
+            for f in facts_at(c))
+        if ok:
+            chk.ok("C16-D17b", fi, c, text, "`{}` is not empty here".format(
+                lst))
+        else:
+            chk.fail("C16-D17b", fi, c, text,
+                     "nothing establishes that `{}` holds a left-hand "
+                     "document at this call: with no YAML_FILE named the "
+                     "list is empty and the merge ends in IndexError "
+                     "(`lhs_docs[0]`) instead of taking STDIN as the "
+                     "left-hand side".format(lst))
+    if n < 2:
+        raise AnalysisError("merge_docs calls in main(): {}".format(n))
+
+
 def d17_loaded_means_a_document(chk: Check) -> None:
     """yaml-merge takes element [0] of its document lists (the prime
     left-hand document, the document whose type decides the output format).
@@ -1349,9 +1472,12 @@ def run(chk: Check) -> None:
     d11_value_as_supplied(chk)
     d15_alias_option_table(chk)
     d17_loaded_means_a_document(chk)
+    d17b_merge_needs_a_left_side(chk)
     d18_filters_restored_before_handing_out(chk)
     d19_option_tables(chk)
     d22_format_by_final_extension(chk)
+    d23_logger_reads_live_options(chk)
+    d24_strict_decoding(chk)
     from rules.shared import shared_state_rule
     shared_state_rule(chk, "C16-D12", sorted({f.module.relpath
                                           for f in funcs}), 40)
